@@ -33,6 +33,8 @@ CHECKS = {
             "parts": [part("TestC06", 8, 150, 16, 2500)]},
     "C16": {"level": "exploration", "scheduled": True,
             "parts": [part("TestC16", 8, 150, 16, 2500)]},
+    "C18": {"level": "exploration", "scheduled": True,
+            "parts": [part("TestC18", 8, 200, 16, 4000)]},
     "C04": {"level": "exploration", "scheduled": True,
             "parts": [part("TestC04", 8, 100, 16, 1500)]},
 }
